@@ -218,6 +218,12 @@ Same(ty, a, b) ==
     \/ ty = "Real" /\ RealShape(a) /\ RealShape(b) /\ RealNaN(a) /\ RealNaN(b)
     \/ ty = "Double" /\ DoubleShape(a) /\ DoubleShape(b) /\ DoubleNaN(a) /\ DoubleNaN(b)
 
+\* octets o are an acceptable encoding of v: the canonical ones -- or, for a NaN, those of any NaN of that width
+IsNaN(ty, v) == (ty = "Real" /\ RealNaN(v)) \/ (ty = "Double" /\ DoubleNaN(v))
+EncOK(n, ty, v, o) ==
+    \/ o = Enc(n, ty, v)
+    \/ IsNaN(ty, v) /\ Len(o) = Len(Enc(n, ty, v)) /\ Same(ty, Dec(n, ty, o), v)
+
 \* ---- theorems (checked by TLC over the grids of MC_Prims) -----------------------------------------------------
 Encodable(ty) == ty # "RealFromDouble"
 RoundTripP(n, ty, v) == Dec(n, ty, Enc(n, ty, v)) = v
